@@ -135,6 +135,21 @@ func c04Reclaim() {
 			}
 		}()
 	}
+	// the cooldown is changed while the buffer is in use (raised or lowered): whatever window is running,
+	// what every open consumer has committed past is gone once everything has gone quiet
+	if simrt.Chance(1, 3) {
+		newCool := drawCooldown()
+		rp := drawPause()
+		rs := simrt.DrawRange(0, 60)
+		go func() {
+			rp.do(unit)
+			simrt.Stall(rs)
+			simrt.Probe("cooldown_changed_while_in_use")
+			if err := b.SetCleanerConfig(bigbuff.CleanerConfig{Cleaner: bigbuff.DefaultCleaner, Cooldown: newCool}); err != nil {
+				simrt.Failf("C04.setup", "SetCleanerConfig: %v", err)
+			}
+		}()
+	}
 	expect := func(phase string) bool {
 		simrt.Quiesce(-1) // all tasks blocked or done, every pending timer fired
 		if simrt.Failed() {
@@ -217,18 +232,29 @@ func c04Reclaim() {
 
 // c04Fixed: FixedBufferCleaner(max, target<=max): once quiescent, Size <= max whatever the consumers
 // did.
+// c04MkFixed is the one place of a program that builds its cleaners (a configuration reload handler):
+// the closures it returns differ only in what they captured. (A function variable, so that the calls are
+// not inlined and the closures really come from one place; directives do not survive instrumentation.)
+var c04MkFixed = func(max, target int, cb func(bigbuff.FixedBufferCleanerNotification)) bigbuff.Cleaner {
+	return bigbuff.FixedBufferCleaner(max, target, cb)
+}
+
 func c04Fixed() {
 	cool := drawCooldown()
 	max := simrt.DrawRange(1, 5)
 	target := simrt.DrawRange(-2, max) // "target <= max": a negative target asks for more than everything, i.e. everything
 	forced := 0
-	fixed := bigbuff.FixedBufferCleaner(max, target, func(n bigbuff.FixedBufferCleanerNotification) { forced++ })
+	fixed := c04MkFixed(max, target, func(n bigbuff.FixedBufferCleanerNotification) { forced++ })
 	// late: the bound is installed on a buffer that is already in use and has gone quiet (a program that
 	// tightens its memory bound at run time); nothing else happens afterwards
 	late := simrt.Chance(1, 4)
 	var b *bigbuff.Buffer
-	if late {
+	if late && simrt.Chance(1, 2) {
 		b = newBuffer(nil, cool)
+	} else if late {
+		// a loose bound first, tightened later (same constructor, same cooldown: only the limits differ)
+		b = newBuffer(c04MkFixed(1000000, 500000, nil), cool)
+		simrt.Probe("fixed_cleaner_limits_tightened_late")
 	} else {
 		b = newBuffer(fixed, cool)
 	}
